@@ -8,6 +8,8 @@ import (
 	"fmt"
 	"os"
 	"path/filepath"
+	"regexp"
+	"strings"
 
 	"verif/core/schema"
 )
@@ -22,6 +24,7 @@ func main() {
 	regPkg := flag.String("regpkg", "", "package name of the registry file")
 	regFile := flag.String("regfile", "", "path of the registry file")
 	dynImport := flag.String("dyn", "", "import path of the dyn bridge")
+	genDir := flag.String("gendir", "", "directory the generator wrote to (registry: optional identifiers are looked up there)")
 	gen := flag.String("gen", "v2", "module generation the registry is for (v2 | v1)")
 	flag.Parse()
 	var s *schema.Schema
@@ -45,7 +48,21 @@ func main() {
 	must(os.WriteFile(filepath.Join(*out, "manifest.json"), s.ManifestV2(), 0o644))
 	must(os.WriteFile(filepath.Join(*out, "spec.json"), s.SpecV1(), 0o644))
 	if *regFile != "" {
-		must(os.WriteFile(*regFile, []byte(s.RegistrySource(*regPkg, *dynImport, *gen)), 0o644))
+		var exists func(ns, ident string) bool
+		if *genDir != "" {
+			exists = func(ns, ident string) bool {
+				dir := filepath.Join(*genDir, filepath.FromSlash(strings.ReplaceAll(ns, ".", "/")))
+				files, _ := filepath.Glob(filepath.Join(dir, "*.go"))
+				re := regexp.MustCompile(`(?m)^(func|var|type)\s+` + regexp.QuoteMeta(ident) + `\b`)
+				for _, f := range files {
+					if b, err := os.ReadFile(f); err == nil && re.Match(b) {
+						return true
+					}
+				}
+				return false
+			}
+		}
+		must(os.WriteFile(*regFile, []byte(s.RegistrySource(*regPkg, *dynImport, *gen, exists)), 0o644))
 	}
 	fmt.Printf("corpus %s: %d types, %d resources\n", *kind, len(s.Types), len(s.Resources))
 }
